@@ -56,7 +56,7 @@ def rejudge(case):
     return judge(drive.eval_step(case))
 
 
-PLAYOUTS = ['none', 'p-before-each', 'trailing-p', 'mixed']
+PLAYOUTS = ['none', 'p-before-each', 'trailing-p', 'mixed', 'id-last']
 
 
 def run(tier, seed, procs):
@@ -64,7 +64,7 @@ def run(tier, seed, procs):
     M, K = (4, 3) if quick else (6, 4)
     tasks = [(MOD, m, pl, K, pos, None) for m in range(0, M + 1) for pl in PLAYOUTS for pos in (0, 1)]
     cols = drive.pool_map(drive.shard_enum_item, tasks, procs)
-    kw = dict(kinds=gen.ITEM_KINDS, faults='some', rich=True, degenerate=True, min_stories=1)
+    kw = dict(allow_no_slug=True, kinds=gen.ITEM_KINDS, faults='some', rich=True, degenerate=True, min_stories=1)
     shards, per = (8, 400) if quick else (16, 12000)
     cols += drive.pool_map(drive.shard_hyp_steps,
                            [(MOD, per, seed * 1000 + i, kw) for i in range(shards)], procs)
